@@ -427,6 +427,17 @@ def run(ctx):
                             else:
                                 ctx.ok("R15.5", fp, construct, "; ".join(show(t0) for _, t0 in verdicts)[:200], (fp, e.get("ln")))
             ctx.need("R15.5", "no-break paths in the word loop", nb, 2)
+    # ---- R15.10: usage() returns its stream: no standard-library precondition failure (erase / substr / at beyond the end) can throw
+    # out of it for some declaration (an empty default list, an empty description, a one-letter name)
+    ctx.rule("R15.10", "every std thrower (substr / erase / at / compare ...) reachable from usage() is discharged by the facts of its calling contexts: the text is produced for every declaration")
+    from . import C04
+    nthr, nctx = C04.std_thrower_obligations(ctx, "R15.10", [usage], "usage", cg,
+                                             delegated=lambda g: "position arithmetic of the string helpers: R17.1 / R17.2 (re-evaluated below)" if g.file.endswith("lang/string.hpp") else None)
+    if ctx.prop == "C15" and not getattr(ctx, "_sharing", False):
+        from .common import share
+        share(ctx, "C17", ("R17.1", "R17.2"), "R15.10", "string-helper position obligations shared with C17", 3)
+    ctx.note("R15.10: %d std thrower site(s) in %d calling context(s) from usage()" % (nthr, nctx))
+    ctx.need("R15.10", "calling contexts walked from usage()", nctx, 5)
     # ---- R15.6: the layout is a function of the declarations alone - fixed width, nothing read from the process environment
     ctx.rule("R15.6", "every call of the wrapping routine on the usage path passes a constant width of at most 80; nothing reachable from usage() reads the environment")
     ureach = cg.reachable([usage.id])
@@ -479,6 +490,41 @@ def run(ctx):
     syn = [n for bid, i, e in usage.roots() for n in elem_calls(e) if short(n.get("name") or "") == "format_synopsis"]
     ctx.check(len(syn) >= 3, "R15.3", usage, "synopsis-formats-every-kind", "format_synopsis is emitted at %d sites (expected toggles, options, multi-options)" % len(syn), usage)
 
+    # what is collected for the text is kept apart by identity: a set / map with its own comparator, hash or equality on the usage
+    # path merges the elements it considers equivalent (letters that differ in case, names that differ in punctuation) - one vanishes
+    ncoll = 0
+    for fid in sorted(ureach):
+        g = prog.fn(fid)
+        if g is None or not g.has_cfg or not g.file.startswith("/repo/") or "/options/" not in g.file:
+            continue
+        for bid, i, e in g.roots():
+            x = e["expr"]
+            if x.get("k") != "decl":
+                continue
+            for v in x.get("vars", []):
+                t = (v.get("type") or "")
+                m = re.match(r"(?:const )?std::(unordered_)?(multi)?(set|map)<(.*)>\s*&?$", t)
+                if not m:
+                    continue
+                ncoll += 1
+                depth, args, cur = 0, [], ""
+                for ch in m.group(4):
+                    if ch == "<":
+                        depth += 1
+                    elif ch == ">":
+                        depth -= 1
+                    if ch == "," and depth == 0:
+                        args.append(cur)
+                        cur = ""
+                    else:
+                        cur += ch
+                args.append(cur)
+                base = 1 if m.group(3) == "set" else 2
+                extra = [a.strip() for a in args[base:] if not a.strip().startswith("std::allocator") and not re.match(r"std::(less|hash|equal_to)<", a.strip())]
+                ctx.check(not extra, "R15.3", g, "collection-keeps-every-element:%s" % v["name"],
+                          "%s collects into `%s %s`, a container with its own ordering / equality (%s): elements that compare equivalent under it are merged, so an option or letter is missing from the text"
+                          % (short(g.qual), t[:80], v["name"], ", ".join(extra)[:80]), (g, x.get("ln")), why_ok=t[:60])
+    ctx.need("R15.3", "associative containers on the usage path", ncoll, 1)
     # ---- R15.4
     bf = one(ctx, "R15.4", NS + "base::format")
     if bf:
